@@ -15,11 +15,14 @@ CHECKS = {
  "C05": ("geosim", "exploration", "partial claim: membership answers computed during simulated sampling (monitor on every node), the library's own samples, and riding probe points, against the float64 margin outside a 1e-3 band", TECH + "membership monitor riding on simulated sampling (adversarial draws reach corners/edge ends) + reference margin"),
  "C06": ("geosim", "exploration", "normals at the library's own boundary samples incl. measure-zero corner/edge-end draws injected at the RNG seam; finite, unit, outward by a two-sided step test against the reference margin", TECH + "corner-producing draw faults at the RNG seam + reference-margin step oracle"),
  "C10": ("geosim", "exploration", "partial claim: every volume the library computes during simulated sampling and the root volume against closed forms/composition rules; density->count exactly for closed-form primitives, in expectation (pooled z-test) for rejection-based shapes; set_volume/flag histories", TECH + "volume monitor on simulated density sampling + count oracles over owned draw streams"),
+ "C07": ("trainsim", "exploration", "refinement of Lightning-driven training (real Solver under a real Trainer, trainer options = the schedule) against the reference loop R-loop over training histories: per-step learnable state, lr, draw counts, call schedule, validation purity", TECH + "two-world refinement check under an owned RNG; the simulator chooses Lightning's validation/sanity/logging schedule"),
+ "C19": ("trainsim", "fault_enumeration", "per configuration every single crash point (step x hook) is enumerated: crash, only files survive, rebuild from scratch with another init seed, resume to N, bitwise comparison with the uninterrupted run; plus multi-crash schedules and weight-file load/identity checks", TECH + "crash-point enumeration with restart from durable state only, bitwise refinement against the uninterrupted run"),
  "C15": ("samplersim", "exploration", "seeded call histories on static samplers (any interleaving of sample/next/len/re-make_static) judged by the R-static age-set model with freshness observed at the seam; adaptive samplers with generated loss vectors judged row by row against R-adaptive using the fresh draw and the uniform numbers observed at the seam", TECH + "call histories under an owned RNG, state-machine reference models"),
  "C18": ("geosim", "exploration", "partial claim: every point produced in simulated sampling lies in bounding_box(params); tightness for primitives; NormalizationLayer maps samples into [-1,1]^d", TECH + "enclosure monitor riding on simulated sampling (edge draws reach the extreme points)"),
 }
 ENG = {
  "geosim": ("simverif/geosim.py", "seeded simulation of sampling under an owned draw stream (SimRNG) with value faults and spurious rejections; monitors on membership/volume/box; float64 reference geometry R-geo as oracle"),
+ "trainsim": ("simverif/trainsim.py", "real Solver + real pl.Trainer as world A with simulator-chosen trainer options, crash callbacks and private tmpfs directory; R-loop reference optimisation loop as world B"),
  "samplersim": ("simverif/samplersim.py", "operation histories on sampler expressions / static / adaptive samplers with recording proxies; R-count, R-static, R-adaptive reference models"),
 }
 import os, importlib
